@@ -441,6 +441,20 @@ class Workflow(metaclass=WorkflowMeta):
         force: bool = False,
     ) -> bool:
         if self._disable_validation and not force:
+            # Failure routing to @catch_error handlers is runtime configuration, not a
+            # graph check: keep the routing tables populated even when validation is
+            # skipped, otherwise exhausted failures are never handed to their handler.
+            from .representation.validate import _collect_catch_error_handlers
+
+            try:
+                (
+                    self._catch_error_handlers,
+                    self._handler_for_step,
+                ) = _collect_catch_error_handlers(self._step_configs())
+            except WorkflowValidationError:
+                # An inconsistent handler set is a validation finding; with
+                # validation disabled it is not reported and nothing is routed.
+                self._catch_error_handlers, self._handler_for_step = {}, {}
             return False
         stale = self._validated_version != self.__class__._step_functions_version
         if not force and not stale and self._validation_result is not None:
